@@ -23,11 +23,14 @@ CLAIMS = {
 CLAIMS.update({
     "C20": dict(
         category="proof", design="DESIGN.md §3 C20, App. D",
-        technique="static analysis: inter-procedural may-alias / may-mutate abstract interpretation (FX) over every public function and parameter, plus hidden-state rules",
+        technique="static analysis: inter-procedural may-alias / may-mutate abstract interpretation (FX) over every public function and parameter, hidden-state rules, and a taint + backward-slice axis-discipline rule for the batch clause",
         text=("For every public function/method and every parameter the FX analysis (per-branch states, loop fixpoints, view/alias "
               "tracking through numpy view operations, out= arguments, attribute stores, repo callees via summaries, constructor "
               "arguments kept on self) shows that no in-place sink can reach the argument object; module/class/function state, "
-              "memoisation and mutated mutable defaults are excluded structurally. The 'stack = per item' clause is not decided here."),
+              "memoisation and mutated mutable defaults are excluded structurally. Batch clause: for the documented trailing-axes functions "
+              "(Fourier wrappers, temporal power spectrum, profile integrals) nothing on the backward slice of the result reads a leading "
+              "axis (shape index >= 0, len, size, non-negative or all-axes axis argument, subscripts not starting with an Ellipsis); the "
+              "ndim-dispatching centroiders are decided by C15."),
         note=("Trusted: CPython ast; the explicit numpy view / in-place tables in sa/fx.py; library calls outside those tables do not "
               "modify their arguments; parameters documented as int/float/str/bool/tuple are immutable scalars. A positive control "
               "(embedded snippet) must fire on every run.")),
@@ -82,12 +85,15 @@ CLAIMS.update({
         note="Trusted: numpy.fft.fftfreq contract; numpy.empty returns uninitialised memory; step is a positive integer."),
     "C18": dict(
         category="other", design="DESIGN.md §3 C18",
-        technique="static analysis: label bookkeeping (edges produced vs labels consumed), affine index coverage, normal-form slab identities, interval tiling with a trip-count case split",
+        technique="static analysis: label bookkeeping (edges produced vs labels consumed), affine index coverage, normal-form slab identities, interval tiling with a trip-count case split, oracle comparison of the GCTM problem set-up, exponent range analysis of optimiser callbacks",
         text=("equivalent_layers: number of slab edges equals L by construction (a float-step arange is a violation), first edge = "
               "h.min(), digitize labels = labels consumed, outputs of length L fully written, slab-wise strength and 5/3-moment "
               "identities; optimal grouping: the split->group conversion tiles [0, N) into len(splits)+1 contiguous groups for every "
-              "number of splits including 0. Optimality, GCTM accuracy and non-negativity are not decided."),
-        note="Trusted: numpy.digitize / numpy.arange length contracts; L positive integer."),
+              "number of splits including 0; GCTM: moments, least-squares objective, target, starting point, bounds and the mapping of the "
+              "optimiser's answer back to heights/strengths equal their definitions as normal forms, and every callback handed to the "
+              "optimiser is finite on the feasible box (exponent lower-bound analysis); allocation dtypes; no hidden state. Optimality of "
+              "the grouping and what the optimiser converges to are not decided."),
+        note="Trusted: numpy.digitize / numpy.arange length contracts; scipy.optimize.minimize honours fun/x0/args/bounds; L positive integer."),
     "C15": dict(
         category="other", design="DESIGN.md §3 C15",
         technique="static analysis: per-path normal forms of the centroiders; homogeneity-degree queries; branch-sibling agreement; comparison with oracle definitions",
@@ -115,12 +121,13 @@ CLAIMS.update({
         note="Trusted: installed SciPy sources; C14.M1; RectBivariateSpline(s=0) interpolates."),
     "C12": dict(
         category="other", design="DESIGN.md §3 C12",
-        technique="static analysis: function-by-function comparison with Noll's definitions as normal forms (callees opaque), index/coverage rules for the dispatch, library attribute resolution",
+        technique="static analysis: function-by-function comparison with Noll's definitions as normal forms (callees opaque), index/coverage rules for the dispatch, library attribute resolution, exhaustive abstract execution of the gamma-matrix rule chains over a finite predicate abstraction",
         text=("Library attributes used by zernike.py/pupil.py exist; zernike_nm equals Noll's mode definition on all three branches "
               "(normalisation, cos/sin, clipping, pupil); zernIndex equals Noll's formula with + for even and - for odd j; radial "
               "polynomial equals the factorial sum; list/count dispatch, storage indices, allocation coverage and per-mode "
-              "normalisation of zernikeArray; phaseFromZernikes is the linear combination. Bijectivity, orthonormality and gamma "
-              "matrices are not decided."),
+              "normalisation of zernikeArray; phaseFromZernikes is the linear combination; makegammas: the two if-chains are executed "
+              "abstractly over the finite abstraction (m_i, m_j, parities of the Noll indices) and every entry coefficient equals Noll's "
+              "derivative rules (a)-(d). Bijectivity and orthonormality on a sampled grid are not decided."),
         note="Trusted: oracle text in sa/props/c12.py (Noll 1976); installed NumPy/SciPy for attribute existence."),
 })
 
